@@ -651,10 +651,30 @@ func scanLogs(c *ctx, where string) {
 		return
 	}
 	lines := strings.Split(logs, "\n")
-	for v, kind := range secrets {
-		if !strings.Contains(logs, v) {
-			continue
+	// index the secrets by their first 8 bytes and slide once over the text: linear in len(logs) however many secrets are known
+	idx := map[string][]string{}
+	var hits []string
+	for v := range secrets {
+		if len(v) >= 8 {
+			idx[v[:8]] = append(idx[v[:8]], v)
+		} else if strings.Contains(logs, v) {
+			hits = append(hits, v)
 		}
+	}
+	seenHit := map[string]bool{}
+	for i := 0; i+8 <= len(logs); i++ {
+		if cands, ok := idx[logs[i:i+8]]; ok {
+			for _, v := range cands {
+				if !seenHit[v] && strings.HasPrefix(logs[i:], v) {
+					seenHit[v] = true
+					hits = append(hits, v)
+				}
+			}
+		}
+	}
+	sort.Strings(hits)
+	for _, v := range hits {
+		kind := secrets[v]
 		sample := ""
 		for _, l := range lines {
 			if strings.Contains(l, v) {
